@@ -163,6 +163,9 @@ func genC17(seed int64, tier string) []caseOut {
 		addV("namespace-longer", "did:ionx:"+b.suffix+":"+state, false)
 		addV("namespace-shorter", "did:io:"+b.suffix+":"+state, false)
 		addV("namespace-no-colon", "did:ion"+b.suffix+":"+state, false)
+		for _, nsv := range []string{"DID:ION", "did:Ion", "dId:ion", "did:ioN", "Did:ion"} {
+			addV("namespace-other-case-"+nsv, nsv+":"+b.suffix+":"+state, false)
+		}
 		addV("short-form", ns+":"+b.suffix, false)
 		addV("suffix-of-other-request", ns+":"+modelHash(M{"x": 1.0}, 18)+":"+state, false)
 		addV("extra-segment", ns+":label:"+b.suffix+":"+state, true)
@@ -229,7 +232,14 @@ func genC17(seed int64, tier string) []caseOut {
 					doc.AssertionMethod = append(doc.AssertionMethod, *ariesdid.NewReferencedVerification(vm, ariesdid.AssertionMethod))
 				}
 			}
-			doc.Service = append(doc.Service, ariesdid.Service{ID: "svc", Type: "type", ServiceEndpoint: endpoint.NewDIDCommV1Endpoint("https://example.com")})
+			svc := ariesdid.Service{ID: "svc", Type: "type", ServiceEndpoint: endpoint.NewDIDCommV1Endpoint("https://example.com")}
+			if i%2 == 0 { // the optional DIDComm members are part of the document supplied
+				svc.RoutingKeys = []string{"did:example:router#1", "did:example:router#2"}
+				svc.RecipientKeys = []string{"did:example:me#recipient"}
+				svc.Accept = []string{"didcomm/aip2;env=rfc19"}
+				svc.Properties = map[string]interface{}{"note": "kept"}
+			}
+			doc.Service = append(doc.Service, svc)
 			upd, rec := genKey(r, "Ed25519"), genKey(r, "Ed25519")
 			ids := map[string]bool{}
 			readOK, idOK := true, true
@@ -250,6 +260,19 @@ func genC17(seed int64, tier string) []caseOut {
 					} else {
 						idOK = rd.DIDDocument.ID == first && len(rd.DIDDocument.VerificationMethod) == nkeys &&
 							len(rd.DocumentMetadata.EquivalentID) > 0 && strings.HasPrefix(first, rd.DocumentMetadata.EquivalentID[0]+":")
+						// the services supplied come back with all their members
+						if len(rd.DIDDocument.Service) != 1 {
+							idOK = false
+						} else {
+							got, want := rd.DIDDocument.Service[0], doc.Service[0]
+							uriG, _ := got.ServiceEndpoint.URI()
+							uriW, _ := want.ServiceEndpoint.URI()
+							if got.Type != want.Type || uriG != uriW || fmt.Sprint(got.RoutingKeys) != fmt.Sprint(want.RoutingKeys) ||
+								fmt.Sprint(got.RecipientKeys) != fmt.Sprint(want.RecipientKeys) {
+								// (accept comes back under Properties in the pinned did-go: not compared)
+								idOK = false
+							}
+						}
 					}
 				}
 			}
